@@ -277,6 +277,7 @@ func boundsHandler(raw json.RawMessage) map[string]any {
 		L          string
 		B, B1, B2  bBox
 		Pv         []int
+		Viaown     bool // extend family: the box is the first geometry's own Bounds(), extended by the others
 	}
 	must(json.Unmarshal(raw, &c))
 	out := map[string]any{}
@@ -288,7 +289,12 @@ func boundsHandler(raw json.RawMessage) map[string]any {
 		steps, own, tys := []any{}, []any{}, []string{}
 		for i, g := range c.Gs {
 			gg := buildNode(g, leafSalt(i, len(c.Gs), g))
-			steps = append(steps, boundsProj(func() *geom.Bounds { b.Extend(gg); return b }))
+			if c.Viaown && i == 0 {
+				// (only generated with l0 = "No": NewBounds(NoLayout).Extend(g) and g.Bounds() must be the same box)
+				steps = append(steps, boundsProj(func() *geom.Bounds { b = gg.Bounds(); return b }))
+			} else {
+				steps = append(steps, boundsProj(func() *geom.Bounds { b.Extend(gg); return b }))
+			}
 			own = append(own, boundsProj(func() *geom.Bounds { return gg.Bounds() }))
 			tys = append(tys, goType(gg))
 		}
